@@ -8,7 +8,6 @@ import (
 	"fmt"
 	"regexp"
 	"slices"
-	"strings"
 
 	"github.com/roddhjav/apparmor.d/pkg/prebuild"
 )
@@ -59,10 +58,14 @@ func filter(only bool, opt *Option, profile string) (string, error) {
 	}
 
 	if opt.IsInline() {
-		profile = strings.ReplaceAll(profile, opt.Raw, "")
+		// The whole line goes, line end included: an empty line left behind
+		// would end a paragraph that another directive guards
+		regRemoveLine := regexp.MustCompile(`(?m)^` + regexp.QuoteMeta(opt.Raw) + `$\n?`)
+		profile = regRemoveLine.ReplaceAllLiteralString(profile, "")
 	} else {
 		// The directive is a whole line: do not match it inside another line (e.g. after a rule)
-		regRemoveParagraph := regexp.MustCompile(`(?sm)^` + regexp.QuoteMeta(opt.Raw) + `\n.*?\n\n`)
+		// ... up to and including the empty line that ends the paragraph (or the end of the text)
+		regRemoveParagraph := regexp.MustCompile(`(?m)^` + regexp.QuoteMeta(opt.Raw) + `\n(?:.+\n?)*\n?`)
 		profile = regRemoveParagraph.ReplaceAllString(profile, "")
 	}
 	return profile, nil
